@@ -1,6 +1,7 @@
 package main
 
 import (
+	beacon "github.com/oasisprotocol/oasis-core/go/beacon/api"
 	"encoding/json"
 	"fmt"
 	"math/big"
@@ -122,10 +123,30 @@ func electionInvariants(n *chain.Node) string {
 		}
 		vps = append(vps, vp{s, v.VotingPower})
 	}
+	// VRF beacon: when at least MinValidators eligible validator nodes submitted a proof in the previous
+	// epoch, validator candidates are the nodes with such a proof (they are ordered by their hashed betas);
+	// otherwise the election falls back to all eligible nodes.
+	vrfFilter := false
+	var prevPi map[signature.PublicKey]*signature.Proof
+	if bp, err := beaconState.NewImmutableState(t).ConsensusParameters(chain.Ctx); err == nil && bp.Backend == beacon.BackendVRF {
+		if vs, err := beaconState.NewImmutableState(t).VRFState(chain.Ctx); err == nil && vs != nil && vs.PrevState != nil {
+			prevPi = vs.PrevState.Pi
+			withPi := 0
+			for _, nd := range nodes {
+				if eligible(nd) == "" && prevPi[nd.ID] != nil {
+					withPi++
+				}
+			}
+			vrfFilter = withPi >= params.MinValidators
+		}
+	}
 	// ordering: no unelected eligible entity has strictly more stake than an elected one when the
 	// limit was reached; below the limit every eligible entity is represented.
 	for _, nd := range nodes {
 		if elected[nd.EntityID] || eligible(nd) != "" {
+			continue
+		}
+		if vrfFilter && prevPi[nd.ID] == nil {
 			continue
 		}
 		if len(vals) < params.MaxValidators {
@@ -180,6 +201,16 @@ func committeeInvariants(n *chain.Node) string {
 	thresholds, _ := ss.Thresholds(chain.Ctx)
 	runtimes, _ := rs.Runtimes(chain.Ctx)
 	nodes, _ := rs.Nodes(chain.Ctx)
+	// VRF beacon: a committee is elected only when the previous epoch's alpha was of high quality, and
+	// only from nodes that submitted a proof in the previous epoch and have been registered for a whole epoch
+	var prevVRF *beacon.PrevVRFState
+	useVRF := false
+	if bp, err := beaconState.NewImmutableState(t).ConsensusParameters(chain.Ctx); err == nil && bp.Backend == beacon.BackendVRF {
+		useVRF = true
+		if vs, err := beaconState.NewImmutableState(t).VRFState(chain.Ctx); err == nil && vs != nil {
+			prevVRF = vs.PrevState
+		}
+	}
 	for _, rt := range runtimes {
 		if rt.Kind != registry.KindCompute {
 			continue
@@ -212,6 +243,14 @@ func committeeInvariants(n *chain.Node) string {
 					why = "suspended for the runtime"
 				}
 			}
+			if why == "" && useVRF {
+				switch {
+				case err != nil || status.ElectionEligibleAfter == beacon.EpochInvalid || epoch <= status.ElectionEligibleAfter:
+					why = "not yet eligible for elections (registered less than a full epoch ago)"
+				case prevVRF == nil || prevVRF.Pi[nd.ID] == nil:
+					why = "without a VRF proof in the previous epoch"
+				}
+			}
 			if why == "" && !params.DebugBypassStake {
 				acct, err := ss.Account(chain.Ctx, staking.NewAddress(nd.EntityID))
 				if err != nil || acct.Escrow.CheckStakeClaims(thresholds) != nil {
@@ -228,6 +267,10 @@ func committeeInvariants(n *chain.Node) string {
 		// per role: the number of pool nodes that survive the per-entity limit, and the minimum pool size
 		possible := true
 		why := ""
+		if useVRF && (prevVRF == nil || !prevVRF.CanElectCommittees) {
+			possible = false
+			why = "the previous epoch's VRF alpha was not of high quality"
+		}
 		for role, want := range sizes {
 			if want == 0 {
 				continue
@@ -363,10 +406,18 @@ func runC14(r *ev.Run) {
 	// group size 2 -> committee of nodes 0 and 2; (rt8) group size 3 -> no committee
 	rt7 := chain.GenesisOptions{EpochInterval: 2, MaxValidators: 3, NoRewards: true, NodeExpiration: 14, Runtime: true, RtGroupSize: 2, RtTwoVersions: true}
 	rt8 := chain.GenesisOptions{EpochInterval: 2, MaxValidators: 3, NoRewards: true, NodeExpiration: 14, Runtime: true, RtGroupSize: 3, RtMinPool: 3, RtTwoVersions: true}
+	// VRF beacon (the production backend): committees only from nodes with a proof in the previous epoch and
+	// only after a high-quality alpha; validators of tied entities ordered by hashed betas
+	vrf1 := chain.GenesisOptions{EpochInterval: 3, MaxValidators: 3, NoRewards: true, NodeExpiration: 24, Runtime: true, RtGroupSize: 2, RtBackupSize: 1, VRF: true}
+	vrf2 := chain.GenesisOptions{EpochInterval: 3, MaxValidators: 2, NoRewards: true, NodeExpiration: 24, Escrow: []uint64{2000, 2000, 2000}, VRF: true}
+	vrf3 := chain.GenesisOptions{EpochInterval: 4, MaxValidators: 3, NoRewards: true, NodeExpiration: 24, Runtime: true, RtGroupSize: 1, RtMinPool: 2, VRF: true, VRFThreshold: 3, VRFDelay: 2}
 	rt5 := chain.GenesisOptions{EpochInterval: 2, MaxValidators: 3, NoRewards: true, NodeExpiration: 14, Runtime: true, RtGroupSize: 3, RtMinPool: 1, NodeExpirations: []uint64{14, 3, 14}} // pool falls below the group size
-	variants = append(variants, rt1, rt2, rt3, rt4, rt5, rt6, rt7, rt8)
+	variants = append(variants, rt1, rt2, rt3, rt4, rt5, rt6, rt7, rt8, vrf1, vrf2, vrf3)
 	if !r.Thorough() {
-		variants = []chain.GenesisOptions{variants[2], variants[3], variants[5], variants[6], variants[7], tiny, tiny2, rt1, rt2, rt3, rt4, rt5, rt6, rt7, rt8}
+		variants = []chain.GenesisOptions{variants[2], variants[3], variants[5], variants[6], variants[7], tiny, tiny2, rt1, rt2, rt3, rt4, rt5, rt6, rt7, rt8, vrf1, vrf2, vrf3}
+	}
+	if os.Getenv("VERIF_C14_ONLY_VRF") != "" {
+		variants = []chain.GenesisOptions{vrf1, vrf2, vrf3}
 	}
 	depth := 2
 	if r.Thorough() {
@@ -403,6 +454,10 @@ func runC14(r *ev.Run) {
 			}
 		}
 		ls = append(ls, letter{Name: "evidence=dupvote:0", Evidence: "dupvote:0"}, letter{Name: "evidence=dupvote:2", Evidence: "dupvote:2"}, letter{Name: "votes=none", Votes: "none"})
+		if w.opts.VRF {
+			ls = append(ls, vrfPolicyLetters()...)
+			ls = append(ls, vrfLetters()[2:]...)
+		}
 		if w.opts.Runtime {
 			for _, t := range w.runtimeTxs() {
 				switch t.Name {
@@ -427,10 +482,24 @@ func runC14(r *ev.Run) {
 			return "", "harness: " + err.Error()
 		}
 		defer b.close()
+		fill := &alpha[0]
+		var vm *vrfModel
+		if w.opts.VRF {
+			fill = &letter{Name: "vrf-auto", VRF: &vrfSpec{Kind: "auto"}}
+			vm = newVRFModel(w)
+		}
 		step := func(l *letter) (string, bool) {
+			if l == &alpha[0] {
+				l = fill
+			}
 			out, err := b.exec(l)
 			if err != nil {
 				return "harness: " + err.Error(), false
+			}
+			if vm != nil && out.results[0].Panic == "" {
+				if wv := vm.observe(b, l, out); wv != "" {
+					return "VRF beacon bookkeeping: " + wv, false
+				}
 			}
 			if out.results[0].Panic != "" {
 				if os.Getenv("VERIF_DEBUG") != "" {
@@ -445,7 +514,11 @@ func runC14(r *ev.Run) {
 		}
 		// runtime genesis: warm up until the first executor committee exists
 		if w.opts.Runtime {
-			for i := int64(0); i < 2*w.opts.EpochInterval-1; i++ {
+			nWarm := 2*w.opts.EpochInterval - 1
+			if w.opts.VRF {
+				nWarm = 2 * w.opts.EpochInterval // the first committee is elected at the start of epoch 3 (see runHistory)
+			}
+			for i := int64(0); i < nWarm; i++ {
 				if wv, ok := step(&alpha[0]); wv != "" || !ok {
 					return "", wv
 				}
@@ -470,7 +543,7 @@ func runC14(r *ev.Run) {
 			}
 			_ = i
 			// advance to the next transition with empty blocks and evaluate there
-			for guard := 0; guard < 3; guard++ {
+			for guard := 0; guard < 3 || guard < int(w.opts.EpochInterval); guard++ {
 				e0 := epochOf(b.ref())
 				wv, ok = step(&alpha[0])
 				if wv != "" || !ok {
@@ -484,7 +557,24 @@ func runC14(r *ev.Run) {
 				}
 			}
 		}
-		return fmt.Sprintf("%d/%x", b.ref().Height, b.ref().AppHash), ""
+		key = fmt.Sprintf("%d/%x%s", b.ref().Height, b.ref().AppHash, b.vrfPolicyKey())
+		if w.opts.VRF {
+			// the effect of a change in VRF participation reaches the elections one and two epochs
+			// later: follow the history with two more epochs of well-behaved (policy-abiding) blocks
+			for n, e0 := 0, epochOf(b.ref()); n < 2*int(w.opts.EpochInterval); n++ {
+				wv, ok := step(fill)
+				if wv != "" || !ok {
+					return "", wv
+				}
+				if e := epochOf(b.ref()); e != e0 {
+					e0 = e
+					if wv := electionInvariants(b.ref()); wv != "" {
+						return "", fmt.Sprintf("%d epoch transition(s) after the history (height %d, epoch %d): %s", n/int(w.opts.EpochInterval)+1, b.ref().Height, e, wv)
+					}
+				}
+			}
+		}
+		return key, ""
 	}
 	if r.Replay != "" {
 		v, err := ev.LoadReplay(r.Replay)
